@@ -255,6 +255,14 @@ def _r4_order(P: Project, R: Report) -> None:
             n += 1
             R.call_sites += 1
             recv = ast.unparse(c.func.value)
+            # named by what it is, not by what the local is called: an entry taken from a table kept on the transport
+            if isinstance(c.func.value, ast.Name):
+                from ..model import local_values as _lv
+
+                defs_ = [v_ for v_ in _lv(f.node).get(c.func.value.id, []) if v_ is not None]
+                if defs_ and all(any(isinstance(x, ast.Attribute) and isinstance(x.value, ast.Name) and x.value.id == "self" for x in ast.walk(v_)) and
+                                 (isinstance(v_, ast.Subscript) or (isinstance(v_, ast.Call) and isinstance(v_.func, ast.Attribute) and v_.func.attr in ("get", "pop"))) for v_ in defs_):
+                    recv = "future"
             R.ob("R4", f"the event-stream side hands a message over by `{recv}.{handoff}(<message>)` instead of delivering it", False, f"{f.module.rel}:{c.lineno}",
                  f"a message read off the event stream is handed to other code for delivery (`{ast.unparse(c)[:70]}`); whatever delivers it runs in another task, so a message that arrived later and is routed directly can reach the read stream first — the relative order of responses and notifications then depends on the carrier",
                  sample=f"R4 {f.qual}: hand-off {recv}.{handoff}")
